@@ -39,9 +39,9 @@ META = {
         "outside, to exercise clipping). Neighbour/destroy/repair/crossover/mutate callbacks are built from the "
         "description and draw from random.Random(cb_seed) created per solver call (lns/alns operators also from the solver's "
         "rng). Solver seeds, max_iter>=1, cooling schedules, acceptance rules (improving, accept_all, simulated_annealing, "
-        "a custom threshold callable), elite sizes incl. 0 and >population, DE strategies valid for the population "
-        "size, minimize/maximize all generated; ~45% of cases carry an on_progress callback (interval 1-3) that "
-        "requests a stop at a generated iteration. Each case: run, run again, run mirrored (-f, not minimize). "
+        "a custom threshold callable; for alns also a coin-flip callable that may reject improvements), elite sizes incl. 0 and >population, DE strategies valid for the population "
+        "size, minimize/maximize all generated; ~55% of cases carry an on_progress callback (interval 1-3) that "
+        "requests a stop at a generated iteration (30-45% of all cases really stop early). Each case: run, run again, run mirrored (-f, not minimize). "
         "Non-trivial = in the proxy log a strictly worse value is recorded after the first occurrence of the best value "
         "(best != last). Distinct = canonical JSON of the case."
     ),
@@ -568,7 +568,8 @@ def state_st(space):
 
 @st.composite
 def progress_st(draw, max_iter, first=1):
-    """None (55%) or {'interval', 'stop_at', 'idle'}; stop_at within the iteration range (10%: never reached)."""
+    """None (measured: 40-45% of the cases) or {'interval', 'stop_at', 'idle'}; stop_at lies within the iteration
+    range, in a few cases beyond it (the callback is called but never asks for a stop)."""
     if _chance(draw, 55):
         return None
     interval = draw(st.integers(1, 3))
@@ -766,17 +767,15 @@ def run_tabu(desc, ctx):
 # improving candidate makes lns return something worse than a point it evaluated.  The callable form of `accept` is
 # not documented (module docstring: 'improving', 'accept_all', or 'simulated_annealing'), hence outside the generated
 # domain for lns; set to True to see it (notes/build/C19.md, "Observed, not asserted").
-LNS_COIN_ACCEPT = False
+LNS_COIN_ACCEPT = True
 
 
 def accept_st(coin):
-    opts = [
-        st.sampled_from(["improving", "accept_all", "simulated_annealing", "simulated_annealing"]),
-        st.sampled_from([0, 0.5, 1, 2.5]).map(lambda t: {"thr": t}),
-    ]
+    opts = ["improving", "accept_all", "simulated_annealing", "simulated_annealing", "improving", "accept_all"]
+    opts += [{"thr": 0}, {"thr": 0.5}, {"thr": 2.5}]
     if coin:
-        opts.append(st.sampled_from([0, 2, 4, 6]).map(lambda p: {"coin": p}))
-    return st.one_of(*opts)
+        opts += [{"coin": 0}, {"coin": 3}, {"coin": 6}]
+    return st.sampled_from(opts)
 
 
 @st.composite
@@ -1147,7 +1146,9 @@ def run_nm(desc, ctx):
 def bayes_cases(draw, tier="quick"):
     d = draw(st.integers(1, 2))
     n_initial = draw(st.integers(1, 4))
-    max_iter = draw(st.integers(2, 7 if tier == "quick" else 10))
+    # max_iter counts the initial samples too; extra = model-guided evaluations (0 or -1: initial samples only)
+    extra = draw(st.sampled_from([1, 2, 3, 4, 2, 3, 0, -1] + ([5, 6] if tier != "quick" else [])))
+    max_iter = max(1, n_initial + extra)
     return {
         "obj": draw(vec_obj(d)),
         "bounds": draw(bounds_st(d)),
@@ -1280,15 +1281,15 @@ def _sub(name, run, strat, quick, thorough, wq=1, wt=4):
 
 
 SUBS = [
-    _sub("anneal", run_anneal, lambda tier: anneal_cases(tier), 1500, 6000),
-    _sub("tabu_search", run_tabu, lambda tier: tabu_cases(tier), 1000, 4000),
-    _sub("lns", run_lns, lambda tier: lns_cases(tier), 1500, 6000),
-    _sub("alns", run_alns, lambda tier: alns_cases(tier), 1300, 6000),
-    _sub("evolve", run_evolve, lambda tier: evolve_cases(tier), 1200, 5000),
-    _sub("differential_evolution", run_de, lambda tier: de_cases(tier), 1200, 4000),
-    _sub("particle_swarm", run_pso, lambda tier: pso_cases(tier), 1200, 4000),
-    _sub("nelder_mead", run_nm, lambda tier: nm_cases(tier), 900, 5000, wq=2),
-    _sub("bayesian_opt", run_bayes, lambda tier: bayes_cases(tier), 220, 700, wq=2, wt=2),
-    _sub("powell", run_powell, lambda tier: powell_cases(tier), 500, 1500),
-    _sub("bfgs_lbfgs", run_bfgs, lambda tier: bfgs_cases(tier), 1000, 4000),
+    _sub("anneal", run_anneal, lambda tier: anneal_cases(tier), 1500, 4000),
+    _sub("tabu_search", run_tabu, lambda tier: tabu_cases(tier), 1000, 3000),
+    _sub("lns", run_lns, lambda tier: lns_cases(tier), 1500, 4000),
+    _sub("alns", run_alns, lambda tier: alns_cases(tier), 1300, 4000),
+    _sub("evolve", run_evolve, lambda tier: evolve_cases(tier), 1200, 3500),
+    _sub("differential_evolution", run_de, lambda tier: de_cases(tier), 1200, 3000),
+    _sub("particle_swarm", run_pso, lambda tier: pso_cases(tier), 1200, 3000),
+    _sub("nelder_mead", run_nm, lambda tier: nm_cases(tier), 900, 3500, wq=2),
+    _sub("bayesian_opt", run_bayes, lambda tier: bayes_cases(tier), 220, 600, wq=2, wt=2),
+    _sub("powell", run_powell, lambda tier: powell_cases(tier), 500, 1200),
+    _sub("bfgs_lbfgs", run_bfgs, lambda tier: bfgs_cases(tier), 1000, 3000),
 ]
